@@ -49,7 +49,10 @@ def _macro_value(rng, nprod, defined_ok=True):
   r = rng.random()
   if r < 0.5:
     return {'lit': rng.choice([rng.randint(0, 999), 's%d' % rng.randint(0, 99),
-                               [rng.randint(0, 9)], None])}
+                               [rng.randint(0, 9)], None,
+                               # values that compare equal across types: a
+                               # re-definition 1 -> True -> 1.0 is a change
+                               rng.choice([1, True, 1.0, 0, False, 0.0])])}
   if r < 0.75:
     return {'ref': ['', 'prod%d' % rng.randrange(nprod), True]}
   if r < 0.9:
